@@ -2,6 +2,7 @@
 *source* a loop iterates / a length is taken of (registration table entry or an entity's EntityReactors)."""
 from collections import deque
 
+import re
 import mir
 from mir import op_fn, op_place, origins
 import lib
@@ -16,6 +17,66 @@ SRC_PASS = {"iter", "iter_mut", "into_iter", "drain", "deref", "deref_mut", "enu
 
 class Loop:
     pass
+
+
+def _empty_array_const(op):
+    """a constant (reference to an) empty array: `&[]`"""
+    c = op.get("const") if isinstance(op, dict) else None
+    return isinstance(c, dict) and re.search(r"\[[^\[\]]*; 0\]$", (c.get("ty") or "").strip()) is not None
+
+
+def _flat_map_source(body, t, depth, env):
+    """`opt.into_iter().flat_map(|x| <iteration of x>)`: the 0-or-1 values of an Option, each expanded by the closure, are the
+    closure's iteration of the Option's payload. Two closure shapes are understood: `|e| e.iter_rtype(kind)` (the per-kind
+    registrations of an entity) and `|list| list.iter()[.map(|h| h.sys_command())]` (a table entry's list, element-wise
+    projected to the system id)."""
+    prog = getattr(body, "prog", None)
+    rp = op_place(t["args"][0])
+    if prog is None or rp is None or rp["p"]:
+        return None
+    ds = [d for d in body.defs.get(rp["l"], []) if d[0] in ("stmt", "call")]
+    if len(ds) != 1 or ds[0][0] != "call":
+        return None
+    it = ds[0][2]
+    ifr = op_fn(it["func"])
+    ip = op_place(it["args"][0]) if it["args"] else None
+    if ifr is None or lib.tail(mir.fn_name(ifr), 1) != "into_iter" or ip is None:
+        return None
+    ity = body.local_ty(ip["l"]) if not ip["p"] else ""
+    if not ity.startswith("core::option::Option<"):
+        return None
+    rsrc = _place_source(body, ip, depth + 1, env)
+    clo = None
+    for o in origins(body, t["args"][1]):
+        if o[0] == "agg" and len(o) == 3:
+            ag = body.blocks[o[1]]["stmts"][o[2]]["rv"].get("agg")
+            if ag and ag.get("kind") == "closure":
+                clo = ag
+    cb = prog.body(clo["closure"]) if clo else None
+    if cb is None or cb.arg_count != 2 or rsrc is None:
+        return None
+    calls = [(b, t2, fr) for b, t2, fr in cb.iter_calls() if fr is not None]
+    from_param = lambda op_: bool(origins(cb, op_)) and all(o[0] == "arg" and o[1] == 2 for o in origins(cb, op_))
+    # |e| e.iter_rtype(kind)
+    if len(calls) == 1 and _er_role(cb, calls[0][2]) == "iter" and from_param(calls[0][1]["args"][0]) and rsrc[0] == "entity_component":
+        ko = origins(cb, calls[0][1]["args"][1])
+        if len(ko) == 1:
+            o = next(iter(ko))
+            if o[0] == "arg" and o[1] == 1 and len(o) >= 3 and o[2].lstrip(".").isdigit() and int(o[2].lstrip(".")) < len(clo["ops"]):
+                return ("entity", rsrc[1], _rtype_key(body, clo["ops"][int(o[2].lstrip("."))]))
+        return None
+    # |list| list.iter() / list.iter().map(|h| h.sys_command())
+    if rsrc[0] == "table":
+        ok = bool(calls)
+        for b, t2, fr in calls:
+            n1 = lib.tail(mir.fn_name(fr), 1)
+            if n1 in ("iter", "into_iter", "deref", "as_slice"):
+                continue
+            if n1 == "map" and _maps_handle_to_system(cb, t2):
+                continue
+            ok = False
+        return rsrc if ok else None
+    return None
 
 
 def _projection_field(body, clo_op):
@@ -219,9 +280,15 @@ def _local_source(body, l, depth, env):
             if q is not None:
                 res.add(_place_source(body, q, depth + 1, env))
             elif "use" in rv:
+                if _empty_array_const(rv["use"]):
+                    continue        # `None => &[]`: the alternative that iterates nothing
                 pp = op_place(rv["use"])
                 res.add(_place_source(body, pp, depth + 1, env) if pp else None)
             elif "cast" in rv:
+                cp_ = op_place(rv["cast"]["op"])
+                if _empty_array_const(rv["cast"]["op"]) or (cp_ is not None and not cp_["p"]
+                                                            and re.search(r"\[[^\[\]]*; 0\]$", body.local_ty(cp_["l"]).strip()) is not None):
+                    continue        # `&[]` unsized to a slice
                 pp = op_place(rv["cast"]["op"])
                 res.add(_place_source(body, pp, depth + 1, env) if pp else None)
             else:
@@ -262,6 +329,8 @@ def _local_source(body, l, depth, env):
                     res.add(("table", src_[1], _projection_field(body, t["args"][1]), src_[3]))
                 else:
                     res.add(None)
+            elif t1 == "flat_map" and "iterator::Iterator" in name and len(t["args"]) == 2:
+                res.add(_flat_map_source(body, t, depth, env))
             elif t1 == "flatten" and "iterator::Iterator" in name:
                 # `table.get(&key).into_iter().flatten()`: the 0-or-1 lists of a lookup, flattened, are that entry's list
                 pp = op_place(t["args"][0])
